@@ -825,6 +825,14 @@ def advanced_index(a, key):
     # boolean mask on axis 0 (1-d), remaining basic
     if len(advs) == 1 and isinstance(advs[0][1], Arr) and advs[0][1].kind == "bool":
         ax, m = advs[0]
+        if ax == 1 and m.ndim == 1 and a.ndim == 2 and isinstance(key[0], slice) and key[0] == slice(None):
+            # a[:, mask]: select columns = select rows of the transpose (D6), transposed back
+            selT = mask_select_axis0(a.T, m)
+            fT = selT.snapshot_fn()
+            r = Arr((a.shape[0], selT.shape[0]), lambda idx: fT((idx[1], idx[0])), dtype=a.kind)
+            r.compress = selT.compress
+            r.compress_axes = (a.compress, selT.compress)
+            return r
         if ax != 0 or m.ndim != 1:
             raise Unsupported("boolean mask on axis %d" % ax)
         sel = mask_select_axis0(a, m)
@@ -911,7 +919,19 @@ def store_array(a, key, value):
     masks = [(ax, k) for ax, k in enumerate(key) if isinstance(k, Arr) and k.kind == "bool"]
     fancy = [(ax, k) for ax, k in enumerate(key) if isinstance(k, Arr) and k.kind != "bool"]
     if fancy:
-        raise Unsupported("store through integer fancy index")
+        # integer index arrays of concrete length: a sequence of scalar stores (NumPy assigns them in order)
+        if len(fancy) != len(key) or any(not isinstance(k.shape[0], int) or k.ndim != 1 for _ax, k in fancy):
+            raise Unsupported("store through integer fancy index of symbolic length / mixed with slices")
+        n = fancy[0][1].shape[0]
+        if isinstance(value, Arr):
+            vf = value.snapshot_fn()
+            vals = [vf((t,)) for t in range(n)]
+        else:
+            vals = [value] * n
+        idxs = [tuple(k.get(t) for _ax, k in fancy) for t in range(n)]
+        for ix, v in zip(idxs, vals):
+            store_array(a, ix, v)
+        return
     if isinstance(value, (list, tuple)):
         value = from_nested(list(value))
     if masks:
